@@ -136,7 +136,11 @@ class Server:
         return hashlib.sha256(json.dumps(d, sort_keys=True).encode()).hexdigest()[:24]
 
     # ------------------------------------------------------------------
-    def golden_raw(self, req, timeout=240):
+    GOLDEN_TIMEOUT = 60      # wall seconds for one call evaluated alone (C-level work such as
+                             # int ** int cannot be stopped by the step budget); then "budget"
+
+    def golden_raw(self, req, timeout=None):
+        timeout = timeout or self.GOLDEN_TIMEOUT
         from . import child
         t = time.monotonic()
         res = fork_call(child.run_golden, req, timeout)
